@@ -8,8 +8,6 @@ Local Open Scope string_scope.
 Local Open Scope N_scope.
 Local Open Scope list_scope.
 
-Inductive stag := SNone (* value from a missing optional scope *) | SSome (v : fv).
-
 Inductive asg := Asg (av : list (N * option vertex)) (af : list (N * option (list asg))).
 Definition a_v (a : asg) := match a with Asg v _ => v end.
 Definition a_f (a : asg) := match a with Asg _ f => f end.
@@ -27,49 +25,43 @@ Section Sem.
 
   (* a filter on a candidate: everything passes inside a missing optional scope, and a tag coming
      from a missing optional scope makes the filter pass *)
-  Definition filter_passes (op : opk) (present : bool) (left : fv) (right : option stag) : bool :=
+  Definition filter_passes (op : opk) (present : bool) (left : fv) (right : option tagged) : bool :=
     if negb present then true
     else if opk_unary op then holds_unary op left
     else match right with
          | None => false
-         | Some SNone => true
-         | Some (SSome r) => holds op left r
+         | Some TNone => true
+         | Some (TSome r) => holds op left r
          end.
 
-  Definition imports := list (fieldref * stag).
-  Fixpoint lookup_imp (k : fieldref) (l : imports) : option stag :=
-    match l with
-    | [] => None
-    | (k', a) :: r => if fieldref_eqb k k' then Some a else lookup_imp k r
-    end.
-
+  Definition imports := list (fieldref * tagged).
   Definition prop_of (ty field : string) (c : option vertex) : fv :=
     match c with Some v => g_prop g ty field v | None => Null end.
 
-  Definition context_value (vs : list ir_vertex) (a : asg) (imported : imports) (cf : ctxfield) : stag :=
+  Definition context_value (vs : list ir_vertex) (a : asg) (imported : imports) (cf : ctxfield) : tagged :=
     match find_vertex vs (cf_vid cf) with
     | Some vtx => match lookup_N (cf_vid cf) (a_v a) with
-                  | Some (Some v) => SSome (g_prop g (v_type vtx) (cf_name cf) v)
-                  | _ => SNone
+                  | Some (Some v) => TSome (g_prop g (v_type vtx) (cf_name cf) v)
+                  | _ => TNone
                   end
-    | None => match lookup_imp (FRContext cf) imported with Some t => t | None => SNone end
+    | None => match lookup_ref (FRContext cf) imported with Some t => t | None => TNone end
     end.
 
-  Definition count_value (ss : list step) (a : asg) (imported : imports) (ff : foldfield) : stag :=
+  Definition count_value (ss : list step) (a : asg) (imported : imports) (ff : foldfield) : tagged :=
     if has_fold ss (ff_eid ff)
     then match lookup_N (ff_eid ff) (a_f a) with
-         | Some (Some l) => SSome (U64 (Z.of_nat (List.length l)))
-         | _ => SNone
+         | Some (Some l) => TSome (U64 (Z.of_nat (List.length l)))
+         | _ => TNone
          end
-    else match lookup_imp (FRFold ff) imported with Some t => t | None => SNone end.
+    else match lookup_ref (FRFold ff) imported with Some t => t | None => TNone end.
 
   (* the value of a filter's right-hand side while the vertex `cur` is being entered with candidate `cand` *)
   Definition arg_value (vs : list ir_vertex) (ss : list step) (imported : imports) (a : asg)
-             (cur : N) (cur_ty : string) (cand : option vertex) (arg : argument) : stag :=
+             (cur : N) (cur_ty : string) (cand : option vertex) (arg : argument) : tagged :=
     match arg with
-    | AVar x _ => SSome (match lookup_str x args with Some v => v | None => Null end)
+    | AVar x _ => TSome (match lookup_str x args with Some v => v | None => Null end)
     | ATag (FRContext cf) =>
-        if N.eqb (cf_vid cf) cur then SSome (prop_of cur_ty (cf_name cf) cand)
+        if N.eqb (cf_vid cf) cur then TSome (prop_of cur_ty (cf_name cf) cand)
         else context_value vs a imported cf
     | ATag (FRFold ff) => count_value ss a imported ff
     end.
@@ -129,17 +121,17 @@ Section Sem.
     | _, _ => []
     end.
 
-  Definition import_value (vs : list ir_vertex) (ss : list step) (imported : imports) (a : asg) (t : fieldref) : stag :=
+  Definition import_value (vs : list ir_vertex) (ss : list step) (imported : imports) (a : asg) (t : fieldref) : tagged :=
     match t with
     | FRContext cf =>
         match find_vertex vs (cf_vid cf), lookup_N (cf_vid cf) (a_v a) with
-        | Some vtx, Some (Some v) => SSome (g_prop g (v_type vtx) (cf_name cf) v)
-        | _, _ => SNone
+        | Some vtx, Some (Some v) => TSome (g_prop g (v_type vtx) (cf_name cf) v)
+        | _, _ => TNone
         end
     | FRFold ff =>
         match lookup_N (ff_eid ff) (a_f a) with
-        | Some (Some l) => SSome (U64 (Z.of_nat (List.length l)))
-        | _ => SNone
+        | Some (Some l) => TSome (U64 (Z.of_nat (List.length l)))
+        | _ => TNone
         end
     end.
 
@@ -147,7 +139,7 @@ Section Sem.
              (sub_sem : imports -> option vertex -> list asg) (a : asg) : list asg :=
     match find_vertex vs (fo_from h), lookup_N (fo_from h) (a_v a) with
     | Some fromv, Some (Some v) =>
-        let imp' := map (fun t => (t, import_value vs ss imported a t)) (fo_imported h) ++ imported in
+        let imp' := fold_left (fun m t => insert_ref t (import_value vs ss imported a t) m) (fo_imported h) imported in
         let elems := flat_map (fun n => sub_sem imp' (Some n)) (g_nbrs g (v_type fromv) (fo_name h) (fo_params h) v) in
         let a' := set_af a (fo_eid h) (Some elems) in
         if forallb (fun pf =>
